@@ -64,7 +64,12 @@ CONSTANTS Mode,
           LinkSegs, LinkMaxLen,  \* archive: link targets
           MaxMembers,
           Srcs,                  \* manifest: source folders used ({"p"} or {"p", "q"})
-          Pattern,               \* archive: "any", or "dir-sym-file": only archives whose members have these kinds in this order
+          Pattern,               \* archive: "any"; "dir-sym-file": only archives whose members have these kinds in this order;
+                                 \* "chain": two symbolic-link members (b, then a or b again) followed by 1..MaxMembers-2 members
+                                 \* of Kinds whose names / hard-link targets are paths over Segs (so that they can run through
+                                 \* the links), kept only when every name and link target looks confined when examined on its
+                                 \* own (StaticallyClean): the inputs that escape only THROUGH EARLIER MEMBERS
+          LastKinds,             \* chain: kinds allowed for the last member of a full-length archive
           Guard,
           Emit
 
@@ -102,6 +107,7 @@ Walk(cur, segs, fs, made, fuel, mk) ==
     ELSE LET s == Head(segs)
              rest == Tail(segs)
          IN IF s = "" THEN Walk(Root, rest, fs, made, fuel - 1, mk)
+            ELSE IF s = "." THEN Walk(cur, rest, fs, made, fuel - 1, mk)
             ELSE IF s = ".." THEN Walk(Parent(cur), rest, fs, made, fuel - 1, mk)
             ELSE LET p == Append(cur, s)
                      k == IF p \in made THEN "dir" ELSE Kind(fs, p)
@@ -123,14 +129,14 @@ Final(loc, fs, fuel) ==
              r == Walk(Parent(loc), Front(to), fs, {}, fuel - 1, FALSE)
          IN IF ~r.ok THEN [ok |-> FALSE, p |-> loc]
             ELSE LET l == Last(to)
-                     nxt == IF l = ".." THEN Parent(r.p) ELSE IF l = "" THEN Root ELSE Append(r.p, l)
+                     nxt == IF l = ".." THEN Parent(r.p) ELSE IF l = "" THEN Root ELSE IF l = "." THEN r.p ELSE Append(r.p, l)
                  IN Final(nxt, fs, fuel - 1)
 
 Res(ok, fs, w) == [ok |-> ok, fs |-> fs, w |-> w, late |-> {}]
 ResL(ok, fs, w, late) == [ok |-> ok, fs |-> fs, w |-> w, late |-> late]
 
 (* the location named by the last segment below the resolved parent directory *)
-Loc(par, last) == IF last = ".." THEN Parent(par) ELSE IF last = "" THEN Root ELSE Append(par, last)
+Loc(par, last) == IF last = ".." THEN Parent(par) ELSE IF last = "" THEN Root ELSE IF last = "." THEN par ELSE Append(par, last)
 
 (* what setting mode / times "on path L" modifies: a final symbolic link is followed, a hard link shares its inode *)
 Touched(fs, L) == LET f == Final(L, fs, Fuel)
@@ -141,6 +147,7 @@ Touched(fs, L) == LET f == Final(L, fs, Fuel)
 RECURSIVE NormAcc(_, _)
 NormAcc(segs, acc) ==
     IF segs = <<>> THEN acc
+    ELSE IF Head(segs) = "." THEN NormAcc(Tail(segs), acc)
     ELSE IF Head(segs) = ".." /\ acc # <<>> /\ Last(acc) \notin {"..", ""} THEN NormAcc(Tail(segs), Front(acc))
     ELSE NormAcc(Tail(segs), Append(acc, Head(segs)))
 Norm(s) == NormAcc(s, <<>>)
@@ -262,7 +269,7 @@ Hostile(inp) == \E p \in Outcome(inp).w : ~Inside(p)
 SeqsUpTo(S, n) == UNION {[1..k -> S] : k \in 1..n}
 ValidName(s) == /\ \A j \in 2..Len(s) : s[j] # ""
                 /\ ~(Len(s) = 1 /\ s[1] = "")
-Proper(s) == Last(s) \notin {"..", ""}
+Proper(s) == Last(s) \notin {"..", "", "."}
 Names == {s \in SeqsUpTo(Segs, MaxLen) : ValidName(s)}
 LinkTargets == {s \in SeqsUpTo(LinkSegs, LinkMaxLen) : ValidName(s)}
 Members ==
@@ -273,9 +280,26 @@ Members ==
                         m.t # m.n}          \* a link to itself is excluded (tarfile recurses without bound on some of them)
       [] Mode = "manifest" -> [k : {"copy", "link"}, n : Names, t : Srcs]
       [] OTHER -> [k : {"copy", "link"}, n : {<<>>}, t : {"pa", "qa", "pd", "qd"}] \cup {[k |-> "extract", n |-> <<>>, t |-> "arch"]}
+(* ---- the "chain" family ------------------------------------------------------------------------------------------- *)
+LexInside(s) == LET x == Norm(s) IN x = <<>> \/ x[1] \notin {"..", ""}
+(* what a check of each member on its own, before anything is extracted, can see *)
+StaticallyClean(inp) == \A j \in 1..Len(inp) :
+                            /\ LexInside(inp[j].n)
+                            /\ (inp[j].k = "sym" => LexInside(Front(inp[j].n) \o inp[j].t))
+                            /\ (inp[j].k = "hard" => LexInside(inp[j].t))
+ChainLinks(names) == {m \in [k : {"sym"}, n : {<<x>> : x \in names}, t : LinkTargets] : m.t # m.n}
+ChainTail == [k : {"file"} \cap Kinds, n : {s \in Names : Proper(s)}, t : {<<>>}]
+             \cup [k : {"dir"} \cap Kinds, n : Names, t : {<<>>}]
+             \cup {m \in [k : {"hard"} \cap Kinds, n : {s \in Names : Proper(s) /\ Len(s) <= LinkNameLen}, t : {s \in Names : Proper(s)}] :
+                        m.t # m.n}
+ChainInputs == {<<l1, l2>> \o rest : l1 \in ChainLinks({"b"}), l2 \in ChainLinks({"a", "b"}),
+                                     rest \in {r \in SeqsUpTo(ChainTail, MaxMembers - 2) :
+                                                  Len(r) = MaxMembers - 2 => r[Len(r)].k \in LastKinds}}
+
 Distinct(inp) == \A i, j \in 1..Len(inp) : i # j => inp[i].n # inp[j].n
-Shaped(inp) == Pattern = "any" \/ (Len(inp) = 3 /\ inp[1].k = "dir" /\ inp[2].k = "sym" /\ inp[3].k = "file")
-Inputs == {inp \in SeqsUpTo(Members, MaxMembers) : (Mode = "manifest" => Distinct(inp)) /\ Shaped(inp)}
+Shaped(inp) == Pattern # "dir-sym-file" \/ (Len(inp) = 3 /\ inp[1].k = "dir" /\ inp[2].k = "sym" /\ inp[3].k = "file")
+Inputs == IF Pattern = "chain" THEN {inp \in ChainInputs : StaticallyClean(inp)}
+          ELSE {inp \in SeqsUpTo(Members, MaxMembers) : (Mode = "manifest" => Distinct(inp)) /\ Shaped(inp)}
 
 (* what the two guards look at *)
 PrefixRejects(inp) == Mode # "stage" /\ \E i \in 1..Len(inp) : inp[i].n[1] = ""
@@ -318,7 +342,7 @@ TypeOK == pc \in {"guard", "run", "rejected", "failed", "done"} /\ i \in 1..(Max
 (* Only locations below the sandbox root that did not exist before, for the comparison with the real tree *)
 Created(inp) == LET r == Outcome(inp) IN {e \in r.fs : ~(e \in Tree0) /\ ~(\E o \in Tree0 : o.p = e.p)}
 Plain(inp) == \A j \in 1..Len(inp) : /\ inp[j].k \in {"file", "dir", "copy"}
-                                     /\ \A x \in 1..Len(inp[j].n) : inp[j].n[x] \notin {"..", ""}
+                                     /\ \A x \in 1..Len(inp[j].n) : inp[j].n[x] \notin {"..", "", "."}
 
 EmitCase == (Emit /\ pc = "guard") =>
     LET r == Outcome(input)
